@@ -152,6 +152,26 @@ impl Unknown {
     }
 }
 
+/// Whether no value of `kind`, at any depth, is a timestamp or a regex.
+fn is_within_json(kind: &Kind) -> bool {
+    fn collection_within_json<T: Ord + Clone>(collection: &Collection<T>) -> bool {
+        let unknown = collection.unknown_kind();
+        let unknown_within_json = if collection.is_unknown_exact() {
+            is_within_json(&unknown)
+        } else {
+            // "infinite" unknowns hold the same type states at every depth
+            !unknown.contains_timestamp() && !unknown.contains_regex()
+        };
+
+        unknown_within_json && collection.known().values().all(is_within_json)
+    }
+
+    !kind.contains_timestamp()
+        && !kind.contains_regex()
+        && kind.as_array().is_none_or(collection_within_json)
+        && kind.as_object().is_none_or(collection_within_json)
+}
+
 impl From<Kind> for Unknown {
     fn from(kind: Kind) -> Self {
         (&kind).into()
@@ -164,7 +184,9 @@ impl From<&Kind> for Unknown {
             return Self::any();
         }
 
-        if kind.is_json() {
+        // `is_json` only looks at the top-level type states: nested collections that can hold
+        // non-JSON values (timestamps, regexes) must not be narrowed to the "json" state.
+        if kind.is_json() && is_within_json(kind) {
             return Self::json();
         }
 
